@@ -207,6 +207,36 @@ theorem natLt_tid_same {name : Text} (hn : Canon name) {j k : Nat} (hj : j < 10 
     · simp [h, h2]
     · simp [h, h2]
 
+/-- the slots `[T - s]`, `[T - s+1]`, …, `[T - s+n-1]` of one test, in the order the calls recorded them, pass
+    `slices.IsSortedFunc(ids, naturalSort)` … -/
+theorem isSortedNat_slots {name : Text} (hn : Canon name) :
+    ∀ (n s : Nat), s + n < 10 ^ 19 → isSortedNat ((List.range' s n).map (tid name)) = true
+  | 0, _, _ => by simp [isSortedNat]
+  | 1, _, _ => by simp [List.range', isSortedNat]
+  | n + 2, s, h => by
+    have ih := isSortedNat_slots hn (n + 1) (s + 1) (by omega)
+    have h1 : natLt (tid name (s + 1)) (tid name s) = false := by
+      rw [natLt_tid_same hn (by omega) (by omega)]; simp
+    have e : List.range' s (n + 2) = s :: (s + 1) :: List.range' (s + 1 + 1) n := by
+      simp [List.range']
+    have e2 : List.range' (s + 1) (n + 1) = (s + 1) :: List.range' (s + 1 + 1) n := by
+      simp [List.range']
+    rw [e2] at ih
+    rw [e]
+    simp only [List.map_cons, isSortedNat, h1, Bool.not_false, Bool.true_and]
+    simpa using ih
+
+/-- … so `Clean` with `Sort` finds the file of a test that recorded `n` snapshots in call order already sorted: the
+    sort is the identity on it (with `C10.clean_nothing_to_do`: the file is not written) -/
+theorem sortNat_slots {name : Text} (hn : Canon name) (n : Nat) (h : 1 + n < 10 ^ 19) :
+    sortNat ((List.range' 1 n).map (tid name)) = (List.range' 1 n).map (tid name) :=
+  sortNat_of_sorted_canon _ (by
+      intro x hx
+      obtain ⟨k, hk, rfl⟩ := List.mem_map.mp hx
+      have := List.mem_range'_1.mp hk
+      exact canon_tid hn (by omega))
+    (isSortedNat_slots hn n 1 h)
+
 /-! ## non-vacuity and sharpness -/
 
 -- "TestA/x#2" and "Test12/b_7": canonical, by running the checker in the kernel
